@@ -69,13 +69,16 @@ Theorem C19_former_race_schedule_harmless :
 Proof. exact race_sched_harmless. Qed.
 Print Assumptions C19_former_race_schedule_harmless.
 
-(* the guard is not vacuous: eight threads (serialize, parse with and without a target
+(* the guard is not vacuous: six threads doing untyped dict decoding (find_type_by_fields over every
+   class of the index, one unbuildable), local_names_match and lookups on a cold context; eight threads (serialize, parse with and without a target
    class, find_type, fetch with xsi:type, a class that cannot be built, a truncated
    document) on a cold context, on a warm one, and three on one with a stale index *)
 Theorem C19_guard_nonvacuous :
   conc_guard W s0 good_threads = true /\ conc_guard W warm1 good_threads = true
-  /\ conc_guard W stale1 [ftPA; parsePA; ftPA] = true.
+  /\ conc_guard W stale1 [ftPA; parsePA; ftPA] = true
+  /\ conc_guard W s0 untyped_threads = true.
 Proof.
-  split; [exact conc_guard_cold|]. split; [exact conc_guard_warm|]. destruct conc_guard_stale. assumption.
+  split; [exact conc_guard_cold|]. split; [exact conc_guard_warm|]. destruct conc_guard_stale.
+  split; [assumption|exact conc_guard_untyped].
 Qed.
 Print Assumptions C19_guard_nonvacuous.
